@@ -18,7 +18,7 @@ func init() {
 		ID:    "C20",
 		Title: "Bound BydbQL parameters are data, never syntax",
 		Decides: "no static call path leads from the binding / bound-transformation entry points back to the query parser; every grammar field tagged as a placeholder position (@Param) is read by both the one-shot binder traversal and the prepared-statement traversal; the per-position count bounds of the binder, the preparer and the literal-path validator agree; Bind's kind switch covers every placeholder kind and rejects a count mismatch and nil values before any slot is filled; " +
-			"the prepared (cached) template is not written during Bind/TransformBound and value nodes are read through the overlay resolver on the bound path; the prepared-statement cache is keyed by the exact query text.",
+			"the prepared (cached) template is not written during Bind/TransformBound and value nodes are read through the overlay resolver on the bound path; the prepared-statement cache is keyed by the exact query text.; on both binding paths the error of every resolve*Param call reaches the caller: in the world where it is non-nil no success return and no further loop iteration is reachable (the error value is followed through phis, so a shadowed copy nobody looks at is reported)",
 		NotDecided: "equality of the produced request with the literal-quoted statement, parser correctness, time-format validation details.",
 		Technique:  "static call-graph unreachability, struct-tag vs field-read set agreement, constant-argument agreement across sibling traversals, local enum exhaustiveness, field-write confinement, SSA value identity of the cache key",
 		Run:        runC20,
